@@ -13,17 +13,17 @@ namespace H
 {
   struct PrmCfg
   {
-    unsigned default_len = 1;
-    struct { const char *key; unsigned len; } lens[12]; unsigned n_lens = 0;
-    struct { const char *key; const char *opt[6]; unsigned n; } strs[6]; unsigned n_strs = 0;
-    struct { const char *key; double value; } fixed[8]; unsigned n_fixed = 0;      // keys answered with a concrete value
-    unsigned surface_points = 0;        // get(name, coordinates): number of additional points (0 => constant surface)
+    // (zero-initialised: the executor does not run global constructors, so no member may rely on a default member initialiser)
+    struct { const char *key; unsigned len; } lens[12]; unsigned n_lens;
+    struct { const char *key; const char *opt[6]; unsigned n; } strs[6]; unsigned n_strs;
+    struct { const char *key; double value; } fixed[8]; unsigned n_fixed;      // keys answered with a concrete value
+    unsigned surface_points;        // get(name, coordinates): number of additional points (0 => constant surface)
     void set_len(const char *k, unsigned n) { lens[n_lens].key = k; lens[n_lens].len = n; ++n_lens; }
     void set_fixed(const char *k, double v) { fixed[n_fixed].key = k; fixed[n_fixed].value = v; ++n_fixed; }
     void set_options(const char *k, const char *a, const char *b = nullptr, const char *c = nullptr, const char *d = nullptr)
     { auto &s = strs[n_strs++]; s.key = k; s.n = 0; s.opt[s.n++] = a; if (b) s.opt[s.n++] = b; if (c) s.opt[s.n++] = c; if (d) s.opt[s.n++] = d; }
     unsigned len_of(const std::string &k) const
-    { for (unsigned i = 0; i < n_lens; ++i) if (k == lens[i].key) return lens[i].len; return default_len; }
+    { for (unsigned i = 0; i < n_lens; ++i) if (k == lens[i].key) return lens[i].len; return 1; }       // lists have one entry unless the harness says otherwise
   };
   static PrmCfg prm;
 }
@@ -34,8 +34,16 @@ extern "C" {
     for (unsigned i = 0; i < H::prm.n_fixed; ++i) if (*name == H::prm.fixed[i].key) return H::prm.fixed[i].value;
     return sym_f64(name->c_str());
   }
-  unsigned __wrap__ZN12WorldBuilder10Parameters3getIjEET_RKNSt7__cxx1112basic_stringIcSt11char_traitsIcESaIcEEE(Parameters *, const std::string *name) { return sym_u32(name->c_str()); }
-  bool __wrap__ZN12WorldBuilder10Parameters3getIbEET_RKNSt7__cxx1112basic_stringIcSt11char_traitsIcESaIcEEE(Parameters *, const std::string *name) { return sym_bool(name->c_str()); }
+  unsigned __wrap__ZN12WorldBuilder10Parameters3getIjEET_RKNSt7__cxx1112basic_stringIcSt11char_traitsIcESaIcEEE(Parameters *, const std::string *name)
+  {
+    for (unsigned i = 0; i < H::prm.n_fixed; ++i) if (*name == H::prm.fixed[i].key) return static_cast<unsigned>(H::prm.fixed[i].value);
+    return sym_u32(name->c_str());
+  }
+  bool __wrap__ZN12WorldBuilder10Parameters3getIbEET_RKNSt7__cxx1112basic_stringIcSt11char_traitsIcESaIcEEE(Parameters *, const std::string *name)
+  {
+    for (unsigned i = 0; i < H::prm.n_fixed; ++i) if (*name == H::prm.fixed[i].key) return H::prm.fixed[i].value != 0;
+    return sym_bool(name->c_str());
+  }
   void __wrap__ZN12WorldBuilder10Parameters16enter_subsectionERKNSt7__cxx1112basic_stringIcSt11char_traitsIcESaIcEEE(Parameters *, const std::string *) {}
   void __wrap__ZN12WorldBuilder10Parameters16leave_subsectionEv(Parameters *) {}
   bool __wrap__ZNK12WorldBuilder10Parameters11check_entryERKNSt7__cxx1112basic_stringIcSt11char_traitsIcESaIcEEE(const Parameters *, const std::string *name) { return sym_bool(name->c_str()); }
